@@ -59,9 +59,15 @@ def _load_file(name, ct=False):
     return recs
 
 
+UNICODE_TOKENS = ['é', 'ß', 'Ω', 'ж', '中文', '😀', 'a\u00a0b', 'naïve café', '°C', 'µM', '±0.5', '→', 'Ångström', '½', '\u200b', 'ﬁ', 'İi', '\u202e', '𝛼']
+
+
 def gen_text(rng, risky_p, maxlen=24):
     n = rng.randrange(1, maxlen)
     s = ''.join(rng.choice(NAME_ALPHABET) for _ in range(n)).strip()
+    if rng.random() < risky_p * 0.6:
+        pos = rng.randrange(0, len(s) + 1)
+        s = s[:pos] + rng.choice(UNICODE_TOKENS) + s[pos:]      # printable text is not ASCII only
     if rng.random() < risky_p:
         tok = rng.choice(RISKY_TOKENS)
         pos = rng.randrange(1, len(s) + 1) if s else 0
